@@ -395,6 +395,13 @@ pub fn check(prop: &str, tier_name: &str) -> i32 {
                 }
             }
         }
+        if !done && key.starts_with("HANG|wall|") {
+            // a slow-but-finite job that outlasted the search backstop under load: not a hang
+            println!("simc: wall-clock suspect {} finished when re-run alone with a 200 s budget: dropped", key);
+            *agg.stats.entry("wall_suspects_dropped".into()).or_insert(0) += 1;
+            unknown_keys -= 1;
+            continue;
+        }
         if !done {
             eprintln!("HARNESS: violation {} seen during the search did not reproduce in a fresh process ({} candidates tried)", key, cands.len().min(3));
             return 2;
@@ -488,8 +495,13 @@ pub fn check(prop: &str, tier_name: &str) -> i32 {
 fn classify_death(status: &str, diag: &str) -> String {
     if diag.contains("has overflowed its stack") {
         "stack".into()
-    } else if diag.contains("memory allocation of") {
-        "alloc".into()
+    } else if let Some(i) = diag.find("memory allocation of") {
+        // the allocation-failure backtrace names the function of the code under test that asked
+        let site = diag[i..]
+            .lines()
+            .find_map(|l| l.find("cc6502::").map(|k| l[k..].trim().to_string()))
+            .unwrap_or_else(|| "unknown".into());
+        format!("alloc@{}", site)
     } else {
         status.replace(' ', "")
     }
@@ -498,6 +510,9 @@ fn classify_death(status: &str, diag: &str) -> String {
 /// Worker deaths are keyed by how the process died and by the coarse shape of the input: a cyclic
 /// include fault, a long repetition (some token occurs >= 500 times), or the base program otherwise.
 fn abort_key(class: &str, w: &World) -> String {
+    if class.starts_with("alloc@") {
+        return format!("ABORT|{}", class);
+    }
     let job = w.jobs.last();
     let src = job.map(|j| j.source.0.clone()).unwrap_or_default();
     let inc: Vec<String> = job
@@ -559,7 +574,7 @@ fn reproduces(prop: &str, class: &str, key: &str, worlds: &[World]) -> Result<bo
             }
             if class == "ABORT" {
                 let c = classify_death(&status, &diag);
-                Ok(key.starts_with(&format!("ABORT|{}|", c)) && worlds.last().map(|w| abort_key(&c, w) == key).unwrap_or(false))
+                Ok(worlds.last().map(|w| abort_key(&c, w) == key).unwrap_or(false))
             } else {
                 Ok(false)
             }
